@@ -291,8 +291,6 @@ def infer_case(c):
     import itertools
     for order in itertools.permutations(classes):
         rows = [dict(id=i, v=x) for i, x in enumerate([y for cl in order for y in vals[cl]])]
-        if all(r_['v'] is None for r_ in rows):
-            continue
         try:
             with contextlib.redirect_stdout(io.StringIO()), contextlib.redirect_stderr(io.StringIO()):
                 res, dp, _ = Flow([dict(r_) for r_ in rows]).results()
